@@ -18,6 +18,9 @@ THEOREMS = [
     "C19.rt_levels", "C19.rt_midpoint", "C19.rt_siblings", "C19.rt_nonneg", "C19.rt_full_false",
     "C19.rt_shape", "C19.rt_entry_independent", "C19.rt_clear_needed",
     "Plot.gss_fuel_sufficient", "Plot.firstPass_good", "Plot.firstPass_q",
+    "C19.rt_cousins_partial", "C19.rt_cousins_partial_fresh", "C19.rt_order_partial", "C19.rt_cousins_depth3",
+    "C19.rt_cousins_complete_binary", "C19.k1_outside", "C19.chain_outside", "C19.chain_fails",
+    "Plot.passes_level_sorted", "Plot.gss_cover", "Plot.gss_top",
 ]
 PROOF_IMPORTS = ["BigtreeProofs.Properties.C19"]
 EPS = Fraction(1, 10**9)
@@ -81,9 +84,18 @@ LEVEL_TEXT = ("partial: proved for the rational model for all trees, all paramet
               "(rt_shape) and does not depend on attributes left by earlier runs (rt_entry_independent; without "
               "the clearing step of repair D9 the sibling clause fails: rt_clear_needed). The cousin clause of "
               "the statement is FALSE of the code (known finding K1): rt_full_false proves the negation on the "
-              "10-node witness")
+              "10-node witness. The cousin clause (and the strict left-to-right order of every level) IS proved, for "
+              "all positive separations and all entry states, on the class ChainExact of trees on which every "
+              "sibling-pair comparison of _get_subtree_shift is exact (rt_cousins_partial, rt_order_partial): in "
+              "every sibling group the first child against each later child has facing contour walks that reach "
+              "the smaller of the two heights, and any two later children share only one level below them; the "
+              "class contains every tree with at most three levels (rt_cousins_depth3) and every complete binary "
+              "tree (rt_cousins_complete_binary); K1 is outside it by the scaling condition only (k1_outside), a "
+              "14-node tree by the walk condition only (chain_outside, chain_fails)")
 LEVEL_NOTE = ("the tie (real floats vs. rational model within 1e-9, after every layout of a history) carries the "
-              "step from the model to the code; binary64 rounding is not verified")
+              "step from the model to the code; binary64 rounding is not verified. The oracle re-implements the "
+              "class predicate from first principles and reports a cousin failure on a tree inside the class under "
+              "its own clause name (cousin_in_class), which is never attributed to K1")
 TECHNIQUE = ("Lean 4 proof over an executable rational model of the three passes (structural/fuel recursion "
              "mirroring plot.py, entry shifts as input, stored shifts as output) + differential correspondence "
              "check of all coordinates over layout/edit histories + model-free oracle of the five clauses on the "
@@ -108,7 +120,8 @@ def mk_case(shape, sib, sub, lvl, xoff, yoff, tags=(), ops=None):
     n = core.shape_size(shape)
     extra = ("n=%d" % n if n <= 8 else ("n=9..30" if n <= 30 else "n>30"),
              "depth=%d" % core.shape_depth(shape), "fanout=%d" % core.shape_fanout(shape),
-             "contour" if _contour(shape) else "no-contour")
+             "contour" if _contour(shape) else "no-contour",
+             "chain-exact" if chain_exact(shape) else "not-chain-exact")
     if len(d["ops"]) > 1:
         extra += ("history", "layouts=%d" % d["ops"].count("L"))
     return Case(_line(d), d, tuple(tags) + extra)
@@ -203,8 +216,11 @@ K1_SHAPE = [[], [[], [[]]], [[[], []]]]            # r(a, b(c, d(e)), f(g(h, i))
 DOC_SHAPE = [[[], [[], []]], [[]]]                 # docstring: a(b(d, e(g, h)), c(f))
 M3_SHAPE = [cf(2, 5), cf(2, 0), tf_first(3, 5)]    # seeded C19-m3 demo: tall - short - tall
 M2_SHAPE = [cf(1, 3), cf(1, 3), cf(1, 2)]          # seeded C19-m2 demo: root(A(3), B(3), C(2))
+CHAIN_SHAPE = [[[[[]]], [[]]], [[[[], [], [], []]]]]  # outside ChainExact by the walk condition only (C19.chain_fails)
+SCALE_SHAPE = [[], [[], [], [], [[], []]], [[[], []], [], [], []]]  # scaling only: two depth-4 cousins at the same x
+DEEP_SHAPE = [[[], [], [[], [[], [], []]]], [[[[], []], [], []]], []]  # inside ChainExact: 5 levels, fan-out 3
 CORPUS = [
-    K1_SHAPE, DOC_SHAPE, [], M3_SHAPE, M2_SHAPE,
+    K1_SHAPE, DOC_SHAPE, [], M3_SHAPE, M2_SHAPE, CHAIN_SHAPE, SCALE_SHAPE, DEEP_SHAPE,
     [[[[[]]]], [], [], [[[[]]]]],                   # two deep outer subtrees, leaves between
     [[], [], [[[], [], []]], [], [[[[]]]], []],     # wide fan over deep middles
     [[[], []], [[], []], [[], []], [[], []]],       # four equal subtrees (idx scaling 1/3, 2/3)
@@ -618,6 +634,45 @@ def compare(impl_out, model_out, case):
         return False
 
 
+# ---------------------------------------------------------------- the class ChainExact (first principles)
+# Re-implementation of Plot.Sk.exact (lean/BigtreeModel/Plot.lean) on nested child lists, written from the
+# description of _get_subtree_shift, not from the Lean text: a sibling pair (i, j) is compared exactly when
+# (i == 0 and both facing walks reach min(height_i, height_j) levels) or only one level is shared.
+
+def _sh_height(s) -> int:
+    return 1 + max([_sh_height(c) for c in s], default=0)
+
+
+def _walk_levels(s, right_side: bool) -> int:
+    """levels visited by the walk down one side of the subtree s: from a node to its last (first) child; when that
+    child is a leaf, on to its nearest left (right) sibling that has children; ends when no such sibling exists"""
+    levels = 1
+    group = s
+    while group:
+        levels += 1
+        order = reversed(group) if right_side else group
+        group = next((c for c in order if c), None)
+    return levels
+
+
+def chain_exact(shape) -> bool:
+    for j in range(1, len(shape)):
+        hj = _sh_height(shape[j])
+        for i in range(j):
+            common = min(_sh_height(shape[i]), hj)
+            if common <= 2:
+                continue
+            if i > 0:
+                return False
+            if min(_walk_levels(shape[i], True), _walk_levels(shape[j], False)) < common:
+                return False
+    return all(chain_exact(c) for c in shape)
+
+
+def _shape_of(node):
+    return [_shape_of(c) for c in node.children]
+
+
 # ---------------------------------------------------------------- oracle (model-free)
 
 def _clauses(k, root, sib, sub, lvl, msgs):
@@ -653,12 +708,15 @@ def _clauses(k, root, sib, sub, lvl, msgs):
         if X[id(n)] < -EPS:
             msgs.append(f"nonneg: {tag}node {ids(n)} has x={float(X[id(n)])}")
     m = min(sib, sub)
+    # a cousin failure on a tree INSIDE the class ChainExact contradicts C19.rt_cousins_partial: it gets its own
+    # clause name, which is_known never attributes to K1
+    clause = "cousin_in_class" if chain_exact(_shape_of(root)) else "cousin_separation"
     for di, lv in enumerate(levels):
         for a, b in zip(lv, lv[1:]):
             if a.parent is b.parent:
                 continue  # sibling clause above (sib >= min)
             if X[id(b)] - X[id(a)] < m - EPS:
-                msgs.append(f"cousin_separation: {tag}nodes {ids(a)},{ids(b)} of depth {di+1} are {float(X[id(b)] - X[id(a)])} apart (< {float(m)})")
+                msgs.append(f"{clause}: {tag}nodes {ids(a)},{ids(b)} of depth {di+1} are {float(X[id(b)] - X[id(a)])} apart (< {float(m)})")
 
 
 def oracle(case):
@@ -706,8 +764,9 @@ def replay_known(entry) -> bool:
 
 
 def is_known(case, msg, entries) -> bool:
-    """a cousin_separation failure is K1 iff the real coordinates equal the pinned model's"""
-    if not msg.startswith("cousin_separation:"):
+    """a cousin_separation failure is K1 iff the real coordinates equal the pinned model's; a failure on a tree
+    inside the class ChainExact (clause cousin_in_class, see _clauses) is never K1: the clause is proved there"""
+    if msg.startswith("cousin_in_class") or not msg.startswith("cousin_separation:"):
         return False
     if not any(e.get("witness", {}).get("clause") == "cousin_separation" for e in entries):
         return False
